@@ -1,2 +1,164 @@
--- driver stub for C07: replaced by the real line-protocol driver
-def main : IO Unit := pure ()
+import Bermuda.Model.Json
+import Bermuda.Model.JsonIO
+import Bermuda.Spec.C07
+open Lean Bermuda Bermuda.JsonIO
+
+/-! Driver for C07. Wire additions (see harness/c07.py):
+  Scalar  null | true | false | ["i",n] | ["f","n/d"] | ["s",text]
+  JVal    Scalar | ["l",[JVal…]] | ["o",[[key,JVal]…]]
+  JMeta   {"rb","co","cu","re","ld": str|null, "lim": Scalar, "det": [[k,Scalar]…], "ldet": …}
+  JCell   as Cell, with "m": JMeta
+-/
+
+def scalarToJson : Scalar → Json
+  | .null => Json.null
+  | .bool b => Json.bool b
+  | .int i => Json.arr #["i", Json.num (JsonNumber.fromInt i)]
+  | .flt q => Json.arr #["f", ratToJson q]
+  | .str s => Json.arr #["s", Json.str s]
+
+def scalarFromJson (j : Json) : Except String Scalar := do
+  match j with
+  | .null => return .null
+  | .bool b => return .bool b
+  | _ =>
+    let a ← j.getArr?
+    if a.size != 2 then throw "scalar: want pair"
+    match (← a[0]!.getStr?) with
+    | "i" => return .int (← jInt? a[1]!)
+    | "f" => return .flt (← ratFromJson a[1]!)
+    | "s" => return .str (← a[1]!.getStr?)
+    | t => throw s!"scalar: bad tag {t}"
+
+partial def jvalToJson : JVal → Json
+  | .null => Json.null
+  | .bool b => Json.bool b
+  | .int i => Json.arr #["i", Json.num (JsonNumber.fromInt i)]
+  | .flt q => Json.arr #["f", ratToJson q]
+  | .str s => Json.arr #["s", Json.str s]
+  | .arr l => Json.arr #["l", Json.arr (l.map jvalToJson).toArray]
+  | .obj kvs => Json.arr #["o", Json.arr (kvs.map fun kv => Json.arr #[Json.str kv.1, jvalToJson kv.2]).toArray]
+
+partial def jvalFromJson (j : Json) : Except String JVal := do
+  match j with
+  | .null => return .null
+  | .bool b => return .bool b
+  | _ =>
+    let a ← j.getArr?
+    if a.size != 2 then throw "jval: want pair"
+    match (← a[0]!.getStr?) with
+    | "i" => return .int (← jInt? a[1]!)
+    | "f" => return .flt (← ratFromJson a[1]!)
+    | "s" => return .str (← a[1]!.getStr?)
+    | "l" => return .arr (← (← a[1]!.getArr?).toList.mapM jvalFromJson)
+    | "o" =>
+      let kvs ← (← a[1]!.getArr?).toList.mapM fun e => do
+        let p ← e.getArr?
+        if p.size != 2 then throw "jval: want [key, value]"
+        return (← p[0]!.getStr?, ← jvalFromJson p[1]!)
+      return .obj kvs
+    | t => throw s!"jval: bad tag {t}"
+
+def jmetaToJson (m : JMeta) : Json :=
+  Json.mkObj [
+    ("rb", optToJson strToJson m.riskBasis), ("co", optToJson strToJson m.country),
+    ("cu", optToJson strToJson m.currency), ("re", optToJson strToJson m.reinsuranceBasis),
+    ("ld", optToJson strToJson m.lossDefinition), ("lim", scalarToJson m.limit),
+    ("det", dictToJson scalarToJson m.details), ("ldet", dictToJson scalarToJson m.lossDetails)]
+
+def jmetaFromJson (j : Json) : Except String JMeta := do
+  let s (k : String) : Except String (Option String) := do
+    optFromJson (·.getStr?) (← j.getObjVal? k)
+  return {
+    riskBasis := ← s "rb", country := ← s "co", currency := ← s "cu",
+    reinsuranceBasis := ← s "re", lossDefinition := ← s "ld",
+    limit := ← scalarFromJson (← j.getObjVal? "lim"),
+    details := ← dictFromJson scalarFromJson (← j.getObjVal? "det"),
+    lossDetails := ← dictFromJson scalarFromJson (← j.getObjVal? "ldet") }
+
+def jcellToJson (c : JCell) : Json :=
+  Json.mkObj [
+    ("k", Json.str c.kind.toStr), ("ps", c.ps.toJson), ("pe", c.pe.toJson), ("ev", c.ev.toJson),
+    ("prev", optToJson Date.toJson c.prev), ("v", dictToJson Val.toJson c.values),
+    ("m", jmetaToJson c.md)]
+
+def jcellFromJson (j : Json) : Except String JCell := do
+  return {
+    kind := ← CellKind.ofStr (← (← j.getObjVal? "k").getStr?),
+    ps := ← Date.fromJson (← j.getObjVal? "ps"),
+    pe := ← Date.fromJson (← j.getObjVal? "pe"),
+    ev := ← Date.fromJson (← j.getObjVal? "ev"),
+    prev := ← optFromJson Date.fromJson (← j.getObjVal? "prev"),
+    values := ← dictFromJson Val.fromJson (← j.getObjVal? "v"),
+    md := ← jmetaFromJson (← j.getObjVal? "m") }
+
+def jcellsToJson (cs : List JCell) : Json := Json.arr (cs.map jcellToJson).toArray
+def jcellsFromJson (j : Json) : Except String (List JCell) := do
+  (← j.getArr?).toList.mapM jcellFromJson
+
+/-! ### a plain JSON serializer (no library code involved): exact decimal expansion of floats -/
+
+def log2Exact (d : Nat) : Option Nat :=
+  let k := Nat.log2 d
+  if 2 ^ k == d then some k else none
+
+/-- exact decimal text of a dyadic rational, always with a fractional part (so it reads back as a
+float); every IEEE double is dyadic -/
+def renderFloat (q : Rat) : String :=
+  match log2Exact q.den with
+  | none => "null"   -- not a float: never produced by the harness
+  | some k =>
+    let mag : Nat := q.num.natAbs * 5 ^ k
+    let ds := toString mag
+    let ds := if ds.length ≤ k then String.ofList (List.replicate (k + 1 - ds.length) '0') ++ ds else ds
+    let cut := ds.length - k
+    let ip := String.ofList (ds.toList.take cut)
+    let fp := String.ofList (ds.toList.drop cut)
+    (if q.num < 0 then "-" else "") ++ ip ++ "." ++ (if fp.isEmpty then "0" else fp)
+
+partial def render : JVal → String
+  | .null => "null"
+  | .bool b => if b then "true" else "false"
+  | .int i => toString i
+  | .flt q => renderFloat q
+  | .str s => (Json.str s).compress
+  | .arr l => "[" ++ ", ".intercalate (l.map render) ++ "]"
+  | .obj kvs => "{" ++ ", ".intercalate (kvs.map fun kv => (Json.str kv.1).compress ++ ": " ++ render kv.2) ++ "}"
+
+def specOn (t : List JCell) (j : Json) : Except String Json := do
+  let dictSpec ← match j.getObjVal? "impl_dict" with
+    | .ok v =>
+      if v.isNull then pure Json.null else
+      let d ← jvalFromJson v
+      pure (Json.mkObj [("text", Spec.C07.textSpec t d), ("slicesOnce", Spec.C07.slicesOnce t d)])
+    | .error _ => pure Json.null
+  let loadSpec ← match j.getObjVal? "impl_loaded" with
+    | .ok v =>
+      if v.isNull then pure Json.null else
+      let outs ← (← v.getArr?).toList.mapM jcellsFromJson
+      pure (Json.arr (outs.map fun o => Json.bool (Spec.C07.loadSpec t o)).toArray)
+    | .error _ => pure Json.null
+  return Json.mkObj [("dict", dictSpec), ("load", loadSpec)]
+
+def handle (j : Json) : Except String Json := do
+  let op ← (← j.getObjVal? "op").getStr?
+  match op with
+  | "rt" =>
+    let t ← jcellsFromJson (← j.getObjVal? "cells")
+    let d := toDict t
+    return Json.mkObj [
+      ("wf", WFjson t),
+      ("toDict", jvalToJson d),
+      ("text", Json.str (render d)),
+      ("fromDict", exceptToJson jcellsToJson (fromDict d)),
+      ("plain", optToJson jcellsToJson (Spec.C07.plainRead d)),
+      ("spec", ← specOn t j)]
+  | "load" =>
+    let d ← jvalFromJson (← j.getObjVal? "doc")
+    return Json.mkObj [
+      ("fromDict", exceptToJson jcellsToJson (fromDict d)),
+      ("plain", optToJson jcellsToJson (Spec.C07.plainRead d)),
+      ("text", Json.str (render d))]
+  | o => throw s!"unknown op {o}"
+
+def main : IO Unit := serve handle
